@@ -238,13 +238,14 @@ struct Sys {
     static bool verify_fields(Inst &I, bool check, const char *site, const std::string &shape)
     {
         const rtosc::AutomationMgr &m = *I.m;
-        bool ok = m.learn_queue_len == (int)I.q.size();
+        bool ok = m.learn_queue_len == (int)I.q.size(), ctrl_ok = true;
         int el[MS], ecc[MS], enr[MS], ncc[MS], nnr[MS];
         for(int s = 0; s < I.S; ++s) {
             el[s] = -1; for(size_t k = 0; k < I.q.size(); ++k) if(I.q[k] == s) el[s] = (int)k + 1;
             ecc[s] = -1; ncc[s] = 0; for(int c = 0; c < 3; ++c) if(I.ccmap[c] == s) { ecc[s] = CCID[c]; ++ncc[s]; }
             enr[s] = -1; nnr[s] = 0; for(int c = 0; c < 2; ++c) if(I.nrpnmap[c] == s) { enr[s] = NRPN_ID[c][0] * 128 + NRPN_ID[c][1]; ++nnr[s]; }
-            if(m.slots[s].learning != el[s] || ncc[s] > 1 || nnr[s] > 1 || m.slots[s].midi_cc != ecc[s] || m.slots[s].midi_nrpn != enr[s]) ok = false;
+            if(m.slots[s].learning != el[s]) ok = false;
+            if(ncc[s] > 1 || nnr[s] > 1 || m.slots[s].midi_cc != ecc[s] || m.slots[s].midi_nrpn != enr[s]) ok = ctrl_ok = false;
         }
         if(!ok) {
             std::string exp, got;
@@ -253,7 +254,8 @@ struct Sys {
                 got += "slot" + std::to_string(s) + "{learning=" + std::to_string(m.slots[s].learning) + " cc=" + std::to_string(m.slots[s].midi_cc) + " nrpn=" + std::to_string(m.slots[s].midi_nrpn) + "} ";
             }
             exp += "queue_len=" + std::to_string(I.q.size()); got += "queue_len=" + std::to_string(m.learn_queue_len);
-            bad(I, check, std::string("learn-state|") + site + "|" + shape, "after " + std::string(site) + ": object " + got + "; model " + exp);
+            // shape class also says which part disagrees: the controller fields (midi_cc / midi_nrpn) or the queue (learning positions / length)
+            bad(I, check, std::string("learn-state|") + site + "|" + shape + (ctrl_ok ? ",queue" : ",controller"), "after " + std::string(site) + ": object " + got + "; model " + exp);
             return false;
         }
         for(int s = 0; s < I.S; ++s) for(int i = 0; i < I.P; ++i) {
@@ -350,7 +352,13 @@ struct Sys {
     }
 
     // ------------------------------------------------------------------ transition
+    // a C++ exception escaping from the library is a finding of the operation that raised it, not a harness crash
     static void apply(Inst &I, int op, bool check)
+    {
+        try { apply_op(I, op, check); }
+        catch(const std::exception &e) { bad(I, check, "exception|" + opname(op).substr(0, opname(op).find('(')) + "|" + e.what(), std::string("the library threw ") + e.what()); }
+    }
+    static void apply_op(Inst &I, int op, bool check)
     {
         I.emitted.clear();
         if(op < OP_CREATE) { I.configure(op - OP_CFG); return; }
